@@ -318,3 +318,26 @@ func (r *Report) Finish(verifDir string, wall float64, seed int) int {
 	}
 	return 0
 }
+
+// importRules runs another property's rule function and files selected rules of it under this report, with the rule
+// ids renamed (from "C14-R1" to prefix+"C14R1"): a necessary condition that belongs to two properties is decided once
+// and reported by both checks.
+func (r *Report) importRules(run func(*World, *Report), prefix string, only map[string]bool) {
+	sub := NewReport(r.W, r.Prop, r.Tier, nil)
+	run(r.W, sub)
+	ren := map[string]string{}
+	for _, ri := range sub.Rules {
+		if only != nil && !only[ri.ID] {
+			continue
+		}
+		id := prefix + strings.ReplaceAll(ri.ID, "-", "")
+		ren[ri.ID] = id
+		r.Rule(id, ri.Kind+" (shared with "+ri.ID+")", ri.Text, ri.MinCount)
+	}
+	for _, o := range sub.Obls {
+		if id, ok := ren[o.Rule]; ok {
+			o.Rule = id
+			r.Obls = append(r.Obls, o)
+		}
+	}
+}
